@@ -92,6 +92,22 @@ class Analysis:
     def var_name(self, i):
         return str(self.qns[i])
 
+    def fn_parent(self, f):
+        """serial id of the function lexically enclosing function node f (0 for the analysed top-level function)"""
+        if not hasattr(self, '_fn_parent'):
+            self._fn_parent = {}
+
+            def walk(node, cur):
+                for c in ast.iter_child_nodes(node):
+                    if isinstance(c, (ast.FunctionDef, ast.Lambda)):
+                        self._fn_parent[id(c)] = cur
+                        walk(c, self.nid(c))
+                    else:
+                        walk(c, cur)
+            self._fn_parent[id(self.fnode)] = 0
+            walk(self.fnode, self.nid(self.fnode))
+        return self._fn_parent.get(id(f), 0)
+
     # ------------------------------------------------------------------ per graph
     def functions(self):
         """[(fn_ast_node, graph)] for every function/lambda graph of the tree, in id order."""
@@ -135,7 +151,7 @@ class Analysis:
                     fl.append(fid)
                     if fid not in fns:
                         fs = anno.getanno(f, annos.NodeAnno.ARGS_AND_BODY_SCOPE)
-                        fns[fid] = {'is_lambda': isinstance(f, ast.Lambda), 'read': self.vids(fs.read),
+                        fns[fid] = {'parent': self.fn_parent(f), 'is_lambda': isinstance(f, ast.Lambda), 'read': self.vids(fs.read),
                                     'bound': self.vids(fs.bound), 'nonlocals': self.vids(fs.nonlocals),
                                     'globals': self.vids(fs.globals), 'modified': self.vids(fs.modified)}
                 e['fns_in'] = sorted(fl)
@@ -299,7 +315,7 @@ def _assoc(dct):
 
 def sx_graph(d):
     """(graph (nodes..) (edges (a b)..) entry (exits..))"""
-    return ['graph', d['nodes'], [list(e) for e in d['edges']], d['entry'], d['exits']]
+    return ['graph', d['fn'], d['nodes'], [list(e) for e in d['edges']], d['entry'], d['exits']]
 
 
 def sx_nodeinfo(d):
@@ -317,7 +333,7 @@ def sx_nodeinfo(d):
 
 
 def sx_fns(d):
-    return [[fid, f['is_lambda'], f['read'], f['bound'], f['nonlocals']] for fid, f in sorted(d['fns'].items())]
+    return [[fid, f.get('parent', 0), f['is_lambda'], f['read'], f['bound'], f['nonlocals']] for fid, f in sorted(d['fns'].items())]
 
 
 def _o(x):
